@@ -491,12 +491,8 @@ func ruleR35(p *Prog) []Ob {
 					if !ok {
 						continue
 					}
-					bo, ok := iff.Cond.(*ssa.BinOp)
-					if !ok || bo.Op != token.EQL {
-						continue
-					}
-					for _, side := range []ssa.Value{bo.X, bo.Y} {
-						if a := sentinelOperand(side); a != "" && emptyOutcomes[a] && edgeDominates(hb, 0, b) && hb != b {
+					for _, t := range sentinelTests(iff.Cond) {
+						if emptyOutcomes[t.atom] && edgeDominates(hb, t.edge, b) && hb != b {
 							fallback = true
 						}
 					}
@@ -1061,4 +1057,46 @@ func ruleR36(p *Prog) []Ob {
 		obs = append(obs, ob)
 	}
 	return obs
+}
+
+type sentinelTest struct {
+	atom string
+	edge int // the successor index on which the tested value is that sentinel
+}
+
+// sentinelTests: the sentinels a condition compares some error value with (== or errors.Is), whatever
+// the error value is.
+func sentinelTests(cond ssa.Value) []sentinelTest {
+	pos := true
+	for {
+		u, ok := cond.(*ssa.UnOp)
+		if !ok || u.Op != token.NOT {
+			break
+		}
+		pos, cond = !pos, u.X
+	}
+	edge := func(holds bool) int {
+		if holds == pos {
+			return 0
+		}
+		return 1
+	}
+	var out []sentinelTest
+	switch c := cond.(type) {
+	case *ssa.BinOp:
+		if c.Op == token.EQL || c.Op == token.NEQ {
+			for _, side := range []ssa.Value{c.X, c.Y} {
+				if a := sentinelOperand(side); a != "" {
+					out = append(out, sentinelTest{a, edge(c.Op == token.EQL)})
+				}
+			}
+		}
+	case *ssa.Call:
+		if calleeName(c.Common()) == "errors.Is" && len(c.Call.Args) == 2 {
+			if a := sentinelOperand(c.Call.Args[1]); a != "" {
+				out = append(out, sentinelTest{a, edge(true)})
+			}
+		}
+	}
+	return out
 }
